@@ -169,13 +169,24 @@ namespace vh
       int id;
    };
 
+   // a state that reports being copied: the library hands states on by reference everywhere
+   struct cwit
+   {
+      cwit() = default;
+      cwit( const cwit& /*unused*/ )
+      {
+         g_out += "COPY-BAD a state object was copied\n";
+      }
+      cwit& operator=( const cwit& ) = delete;
+   };
+
    template< typename S, typename... Ss >
    int state_depth( const S& s, const Ss&... ss )
    {
       if constexpr( std::is_base_of_v< vstate_base, S > ) {
          return s.depth;
       }
-      else if constexpr( std::is_same_v< S, stag > ) {
+      else if constexpr( std::is_same_v< S, stag > || std::is_same_v< S, cwit > ) {
          return state_depth( ss... );
       }
       else {
@@ -795,6 +806,76 @@ namespace vh
       delete[] buf;
    }
 
+   // A reader over the case's bytes that hands out one byte per call (buffer_input< ..., Chunk = 1 >).
+   struct byte_reader
+   {
+      const char* p;
+      std::size_t left;
+
+      std::size_t operator()( char* buffer, const std::size_t length )
+      {
+         if( ( length == 0 ) || ( left == 0 ) ) {
+            return 0;
+         }
+         *buffer = *p++;
+         --left;
+         return 1;
+      }
+   };
+
+   // The same case over a buffer_input (capacity: the whole input, so never an overflow_error; fetched byte by byte): the marks of
+   // the rewind guards, the action inputs and the positions are those of buffer_input — same trace as over a memory_input.
+   template< typename Tag,
+             typename Root,
+             template< typename... >
+             class Action,
+             template< typename... >
+             class Control,
+             pegtl::apply_mode A,
+             pegtl::rewind_mode M,
+             typename Eol >
+   void run_case_buf( const char* case_id, const std::string& bytes, std::size_t /*ib*/, std::size_t /*il*/, std::size_t /*ic*/ )
+   {
+      const std::size_t n = bytes.size();
+      char* buf = new char[ n ];
+      if( n != 0 ) {
+         std::memcpy( buf, bytes.data(), n );
+      }
+      names_ptr() = &names_for< Tag >();
+      messages_ptr() = &messages_for< Tag >();
+      g_out.clear();
+      g_steps = 0;
+      g_oob = 0;
+      g_out += "CASE ";
+      g_out += case_id;
+      g_out += '\n';
+      std::fwrite( g_out.data(), 1, g_out.size(), stdout );
+      std::fflush( stdout );
+      g_out.clear();
+      {
+         pegtl::input_with_depth< pegtl::buffer_input< byte_reader, Eol, std::string, 1 > > in( "src", n + 16, byte_reader{ buf, n } );
+         try {
+            const bool r = pegtl::parse< Root, Action, Control, A, M >( in );
+            g_out += r ? "R 1" : "R 0";
+            emit_pos( in.position() );
+            g_out += '\n';
+         }
+         catch( ... ) {
+            g_out += "R 2";
+            emit_pos( in.position() );
+            g_out += ' ';
+            describe_exception( std::current_exception() );
+            g_out += '\n';
+         }
+         char b[ 96 ];
+         std::snprintf( b, sizeof b, "O %d %zu %zu\n", 0, n, in.current_depth() );
+         g_out += b;
+      }
+      g_out += "END\n";
+      std::fwrite( g_out.data(), 1, g_out.size(), stdout );
+      delete[] buf;
+   }
+
    // C08: the same case through coverage< Root, Action, Control >(): the logging control wrapped by state_control<> must see
    // exactly what it sees in a plain parse, and the facility's own counters must balance for every rule and branch.
    template< template< typename... > class Control, int Mode >
@@ -871,6 +952,11 @@ namespace vh
                else if constexpr( Mode == 7 ) {   // remove_first_state< Base >
                   expect( { 1, 2 } );
                   r = pegtl::parse< Root, Action, shuf_ctl< Control, 7 >::template type >( in, t0, t1, t2 );
+               }
+               else if constexpr( Mode == 10 ) {  // plain control, one state that reports copies
+                  g_shuf_n = -1;
+                  cwit w;
+                  r = pegtl::parse< Root, Action, Control >( in, w );
                }
                else if constexpr( Mode == 8 ) {   // a single state: the overloads without a tuple
                   expect( { 0 } );
